@@ -224,6 +224,7 @@ fn verify_sublayouts(
     layout: &LayoutMetadata,
     chain_link_dict: HashMap<String, HashMap<KeyId, Metablock>>,
     link_dir: &str,
+    depth: usize,
 ) -> Result<HashMap<String, HashMap<KeyId, LinkMetadata>>> {
     let mut chain_link_dict = chain_link_dict;
     let mut steps_link_metadata = HashMap::new();
@@ -268,11 +269,12 @@ fn verify_sublayouts(
                             ))
                         })?;
 
-                    let summary_link = in_toto_verify(
+                    let summary_link = verify_nested(
                         link,
                         layout_key_dict,
                         sublayout_link_dir_path,
                         Some(&step_name),
+                        depth + 1,
                     )?;
 
                     match summary_link.metadata {
@@ -562,6 +564,27 @@ pub fn in_toto_verify(
     link_dir: &str,
     step_name: Option<&str>,
 ) -> Result<Metablock> {
+    verify_nested(layout, layout_keys, link_dir, step_name, 0)
+}
+
+/// Sublayouts may delegate to sublayouts; how deep, is bounded (what the
+/// link directory holds decides how far the recursion goes).
+const MAX_SUBLAYOUT_DEPTH: usize = 32;
+
+fn verify_nested(
+    layout: &Metablock,
+    layout_keys: HashMap<KeyId, PublicKey>,
+    link_dir: &str,
+    step_name: Option<&str>,
+    depth: usize,
+) -> Result<Metablock> {
+    if depth > MAX_SUBLAYOUT_DEPTH {
+        return Err(Error::VerificationFailure(format!(
+            "sublayouts are nested more than {} levels deep",
+            MAX_SUBLAYOUT_DEPTH
+        )));
+    }
+
     // Verify layout signature(s) using passed key(s) and
     // judge whether the Metablock has layout inside
     let layout = match verify_layout_signatures(layout, &layout_keys)? {
@@ -584,7 +607,7 @@ pub fn in_toto_verify(
         verify_link_signature_thresholds(&layout, steps_links_metadata)?;
 
     // Verify sublayouts recursively
-    let link_files = verify_sublayouts(&layout, link_files, link_dir)?;
+    let link_files = verify_sublayouts(&layout, link_files, link_dir, depth)?;
 
     // Verify command alignment for steps of layout (only warns)
     verify_all_steps_command_alignment(&layout, &link_files)?;
